@@ -459,11 +459,14 @@ def _rand_exact_op(g, x, allow_fc=False, big=False):
         y = g.reshape(x, [1, h * w, 1, c]) if r.integers(0, 2) else g.reshape(x, [1, w, h, c])
         return g.conv(y, c, 1, 1, PAD_SAME, act)
     if choice == "pad_conv":
-        k = min(3, h, w)
-        if k < 3:
+        k = int(r.choice([2, 3, 3, 4]))
+        if min(h, w) < k:
             return g.conv(x, c, 1, 1, PAD_SAME, act)
-        p = g.pad(x, [[0, 0], [1, 1], [1, 1], [0, 0]])
-        return g.conv(p, int(r.choice([8, 16])), 3, 1, PAD_VALID, act)
+        pt, pb, pl, pr = (int(r.integers(0, k // 2 + 1)) for _ in range(4))
+        p = g.pad(x, [[0, 0], [pt, pb], [pl, pr], [0, 0]])
+        if r.integers(0, 3) == 0:
+            return g.pool(p, "maxpool", k, 1, PAD_VALID)
+        return g.conv(p, int(r.choice([8, 16])), k, 1, PAD_VALID, act)
     raise AssertionError(choice)
 
 
